@@ -30,6 +30,7 @@ func genGraphSelOpt(t *rapid.T, depth int, aliases bool) C07Case {
 	o := graph.DefaultOpts()
 	o.LinkHeavy = rapid.Bool().Draw(t, "linkheavy")
 	o.RawAliases = aliases
+	o.IdAliases = aliases
 	g := graph.Draw(t, o)
 	var links []string
 	for _, b := range g.Blocks {
